@@ -118,6 +118,15 @@ class PackWorld(world.World):
 def build(cfg, hist, spec):
     env.reset_globals()
     w = PackWorld(cfg['kind'])
+    if cfg.get('pack_empty_first'):
+        # packing an empty database changes nothing - also nothing of the
+        # storage object's own state: everything afterwards behaves as usual
+        from ZODB.serialize import referencesf
+        env.CLOCK.now += 1
+        r = call(w.storage.pack, env.CLOCK.now, referencesf)
+        if isinstance(r, Exc):
+            w.bad('idem', 'pack-of-empty-storage:%s' % r.name,
+                  dict(got=repr(r)))
     w.apply(('mkroot',), spec)
     # 'start': a fixed non-initial state from which the tree is explored
     for op in cfg.get('start', []):
@@ -265,6 +274,11 @@ def node(w, hist, cfg, res):
                     # "a pack that cannot complete": whatever it raised, the
                     # storage must be unchanged and usable
                     res.outcome('pack-failed-' + r.name)
+                    probe = call(pw.storage.undoLog, 0, 5) \
+                        if w.flavor == 'F' else None
+                    if isinstance(probe, Exc) and probe.name == 'UndoError':
+                        bad('failed', '%s:storage-stuck-in-pack-mode' % tag,
+                            dict(pack=label, gc=gc, error=repr(r)))
                     obsf = battery.observe(pw.storage, oids, tids, w.flavor,
                                            iter_level=0)
                     res.clause('C07.failed-unchanged')
@@ -486,12 +500,20 @@ def node(w, hist, cfg, res):
 
 def run(rep, tier, seed, workers):
     if tier == 'quick':
-        plan = [dict(prop='C07', kind='F', nobj=2, depth=4),
+        plan = [dict(prop='C07', kind='F', nobj=2, depth=3,
+                     pack_empty_first=1),
+                dict(prop='C07', kind='M', nobj=2, depth=2, undo=False,
+                     pack_empty_first=1),
+                dict(prop='C07', kind='F', nobj=2, depth=4),
                 dict(prop='C07', kind='M', nobj=2, depth=4, undo=False),
                 dict(prop='C07', kind='F', nobj=2, depth=4, start=CHAIN,
                      nmod=2)]
     else:
-        plan = [dict(prop='C07', kind='F', nobj=3, depth=5, selfloop=True),
+        plan = [dict(prop='C07', kind='F', nobj=2, depth=4,
+                     pack_empty_first=1),
+                dict(prop='C07', kind='M', nobj=2, depth=3, undo=False,
+                     pack_empty_first=1),
+                dict(prop='C07', kind='F', nobj=3, depth=5, selfloop=True),
                 dict(prop='C07', kind='M', nobj=3, depth=5, undo=False,
                      selfloop=True),
                 dict(prop='C07', kind='F', nobj=3, depth=5, start=CHAIN,
@@ -514,7 +536,8 @@ def run(rep, tier, seed, workers):
         states += len(fps)
         rep.bounds['%s depth (after %s)' % (
             cfg['kind'], 'root->1->2' if cfg.get('start') else
-            'root creation')] = depth
+            'pack of the empty storage + root creation'
+            if cfg.get('pack_empty_first') else 'root creation')] = depth
         rep.bounds['%s objects' % cfg['kind']] = cfg['nobj'] + 1
     rep.cov['states'] = states
     rep.assumptions = [
